@@ -65,6 +65,11 @@ CHECKS = {
          "The order-min-hash similarity of each sequence pair is computed by enumerating all ranking prefixes (cross-checked against all P! rankings for unions of <=8-9 pairs). By C11 (decided exactly) a position keeps the l smallest race values, so the collision probability equals the target iff the race tables of distinct (element,occurrence) pairs are exchangeable: for every element of a block of 2^14 (2^17) labels the tables of occurrences 1..3 are read from the real code (hook H4); bit-identical values across occurrences must not exist, P(occ_i<occ_j)=1/2, laws equal across occurrences/elements/positions (two-sample KS), no rank correlation. End-to-end: 13 sequence pairs (identical, reversed, shifted, one edit, common prefix, disjoint, repeats, the suite's patterns) x l in {1,2,3,5} x m in {1,4,16,64} = 168 configurations, 2e4..4e5 disjoint labellings each hashed by the same instance; mean within 6 standard errors of the target (exactly 0/1 where the target is 0/1), confirmed on a 4x larger fresh block before reporting.",
          "finite-population statement about the enumerated blocks; shifts below ~3/sqrt(N) are not resolved",
          "DESIGN.md §4 C10"),
+ "C13": ("model_checking",
+         "exhaustive operation-sequence exploration: all pre-histories x all post-inputs up to a depth, differential oracle against a fresh instance",
+         "For 48 (quick) / 96 (thorough) sketcher kinds - SuperMinHash f32/f64, SuperMinHash2 u32/u64, SetSketcher u8/u16/u32 with overflowing and clipping parameter sets, both densified sketchers f32/f64, ProbMinHash2, and ProbOrdMinHash2's self-clearing hash_set, sizes {1,3,16} (+2,7,64) - every pre-history up to depth 3 (4) over {3 items, burst of 12 items, slice, empty slice (error path), end_sketch, merge with a fixed sketch, reinit} is followed by the reset and by every post-input of depth 1..2 (3); the complete observation (all views, cardinal stats, overflow count, ProbMinHash registers) must be bit-identical to a fresh instance fed the post-input (8.1e5 executions quick). Non-vacuity counters report how many pre-histories had lowered a_upper, raised lower_k, overflowed a register, or left densification pending/finished. A watchdog turns a non-returning finish call into a violation.",
+         "hidden state that never influences a later observable view is not observed; deeper histories assumed alike",
+         "DESIGN.md §4 C13"),
 }
 PENDING_REASON = "check not built yet in this revision (see DESIGN.md §4 for the planned model-checking approach)"
 
